@@ -91,8 +91,10 @@ TProbe ==
 
 TTxStep ==
   /\ E.ev = "txstep"
-  /\ LET v1 == tx[E.c] # -1 /\ ~E.same_conn
-         v2 == tx[E.c] # -1 /\ ~E.ok
+  \* (a transaction that started while the definition in effect was unspecified - after a reload whose pools could not be
+  \* built - is not judged)
+  /\ LET v1 == tx[E.c] # -1 /\ ~E.same_conn /\ txdef[E.c] # "unreachable"
+         v2 == tx[E.c] # -1 /\ ~E.ok /\ txdef[E.c] # "unreachable"
      IN /\ Flag(v1, "transaction_moved_by_reload", [client |-> E.c, landed |-> E.landed])
         /\ Flag(v2, "transaction_broken_by_reload", [client |-> E.c, reply |-> E.reply])
         /\ seen' = seen \cup K({<<v1, "transaction_moved_by_reload">>, <<v2, "transaction_broken_by_reload">>})
@@ -100,7 +102,7 @@ TTxStep ==
 
 TTxEnd ==
   /\ E.ev = "txend"
-  /\ LET v == tx[E.c] # -1 /\ (~E.ok \/ ~E.same_conn) IN
+  /\ LET v == tx[E.c] # -1 /\ (~E.ok \/ ~E.same_conn) /\ txdef[E.c] # "unreachable" IN
        /\ Flag(v, "transaction_broken_by_reload", [client |-> E.c, reply |-> E.reply])
        /\ seen' = seen \cup K({<<v, "transaction_broken_by_reload">>})
   /\ tx' = [tx EXCEPT ![E.c] = -1]
